@@ -26,13 +26,11 @@ class Spec:
         from sim.world import import_pyrtma
         import_pyrtma()
 
-    def run(self, choices):
+    def run(self, choices, forced=None):
         raise NotImplementedError
 
     def deterministic_cases(self, tier):
-        return []
-
-    def run_det_batch(self, cases):
+        """finite fault table: list of case dicts, each run once with a seeded completion"""
         return []
 
 
@@ -51,9 +49,62 @@ class PubSubSpec(Spec):
         self.prop = prop
         self.expected_probes = probes
 
-    def run(self, choices):
+    def run(self, choices, forced=None):
         from harness import pubsub
         return pubsub.run(choices, self.prop)
+
+
+class HostileSpec(Spec):
+    prop = "C03"
+    harness = "hostile"
+    level = "fault_enumeration"
+    crash_is_own_oracle = True
+    batch = 20
+    rule = ("one run = well-behaved bystanders (logger monitor, subscriber, publisher) plus offenders doing "
+            "seeded hostile operations (header field at a C-type boundary in every frame kind, arbitrary "
+            "control payloads and name bytes, declared length != bytes that follow, FIN/RST after any byte, "
+            "pairs of simultaneous failures, bursts of up to 300 connections, random bytes); thorough "
+            "additionally runs the finite tables (frame kind x header field x boundary value x stage; "
+            "frame kind x byte offset x FIN/RST; ordered pairs of failure kinds) once each with a seeded "
+            "schedule; every run counts as non-trivial (each contains faults); distinct = distinct event-log digest")
+    expected_probes = ("liveness_ok", "bystander_msgs_checked", "burst_300", "burst_101")
+    assumptions = ["the two stalls the manager documents as by-design (a peer that stops reading, or withholds the "
+                   "rest of a frame for ever) are never generated",
+                   "the TCP model of sim/net.py"]
+
+    def run(self, choices, forced=None):
+        from harness import hostile
+        return hostile.run(choices, forced)
+
+    def deterministic_cases(self, tier):
+        from harness import hostile
+        return hostile.det_cases(tier)
+
+
+class DepartureSpec(Spec):
+    prop = "C07"
+    harness = "departure"
+    level = "fault_enumeration"
+    batch = 30
+    rule = ("one run = a victim brought to a protocol stage (accepted only / connected / subscribed to types / "
+            "subscribed to ALL / paused / logger) leaves in one way (DISCONNECT, FIN, RST, death at a byte offset "
+            "of an incoming frame, refusal at connect, write-side failure at a byte offset of an outgoing frame), "
+            "alone or together with a second departure in the same instant, amid seeded traffic, service orders "
+            "and further pubsub operations; then id and name are reused at once.  Thorough runs the finite table "
+            "stage x way x byte offset x second-departure once each with a seeded schedule.  Every run contains a "
+            "departure (non-trivial); distinct = distinct event-log digest")
+    expected_probes = ("client_closed_checked", "reconnect_checked", "refusal_checked", "write_fail",
+                       "victim_accepted", "victim_logger", "victim_paused", "victim_sub_all", "multi_ready_round")
+    assumptions = ["the manager has had its first chance to notice (a failed write, or a select round after the "
+                   "FIN/RST became visible) before reuse is attempted", "the TCP model of sim/net.py"]
+
+    def run(self, choices, forced=None):
+        from harness import departure
+        return departure.run(choices, forced)
+
+    def deterministic_cases(self, tier):
+        from harness import departure
+        return departure.det_cases(tier)
 
 
 _SPECS = {}
@@ -70,6 +121,8 @@ def _register():
     s = PubSubSpec("C14", ("notices_expected", "logger_waited", "drop_branch", "write_fail"))
     s.level = "fault_enumeration"
     _SPECS["C14"] = s
+    _SPECS["C03"] = HostileSpec()
+    _SPECS["C07"] = DepartureSpec()
 
 
 def get_spec(prop: str) -> Spec:
